@@ -441,11 +441,21 @@ func (w *world) replay(b behaviour, bind *binding, typ string) bool {
 				violated = true
 				return false
 			}
+			// oracle first: the hasher accepts only bytes that verify for the identifier
+			if res.err == nil && !honest(inv.m) {
+				populated := false
+				if own := r.fetches[inv.owner]; own != nil && inv.idx < len(own.reals) {
+					populated = !isEmpty(own.reals[inv.idx])
+				}
+				sig := "C10/hasher/unverified-bytes-accepted"
+				if populated {
+					sig = sigHasherPop
+				}
+				rep.Violate(sig, fmt.Sprintf("%s %v: block %+v does not verify for it but passes the hasher (registered Block populated: %v)", typ, bind.ids[inv.m.Cid], inv.m, populated), ctxInfo(i))
+				violated = true
+			}
 			if (res.err == nil) != (s.Hpc[s.T] == "accepted") {
 				return drift(i, "model %s, real err=%v", s.Hpc[s.T], res.err)
-			}
-			if res.err == nil && !honest(inv.m) {
-				rep.Violate(sigHasherPop, fmt.Sprintf("%s %v: block %+v does not verify for it but passes the hasher (the registered Block was already populated)", typ, bind.ids[inv.m.Cid], inv.m), ctxInfo(i))
 			}
 			// start the invocation that (in the model) looked this entry up while it was locked
 			for t2, o := range th {
